@@ -76,7 +76,8 @@ Proof. exact sort_check_sound. Qed.
 
 (* non-vacuity: five streams (not a power of two) with duplicates, NULLs, an empty stream, descending + nulls-first
    on the first column: the streams are sorted (hypothesis of the merge theorem), and the model merges them into the
-   stable order; TopK and the grouped external sort on the same rows. *)
+   stable order; TopK and the grouped external sort on the same rows (the grouped merge is a sort, but ties
+   between runs come out in queue order, not chunk order: rows 6 / 1 / 3 below). *)
 Definition ex_os := [ {| s_desc := true; s_nulls_first := true |}; {| s_desc := false; s_nulls_first := false |} ].
 Definition R (a b : option Z) (i : Z) : row := {| rkey := [a; b]; rid := i |}.
 Definition ex_parts : list (list row) :=
